@@ -610,7 +610,7 @@ func (g *c16Gen) commit(hook string, ops []c16Op) {
 }
 
 func runC16(r *Run) {
-	r.Rule = "histories of 1..8 batches sent by 3 hooks through the real operation parser + MetricStorage.SendBatch on a private registry, observed by Gatherer.Gather() after every batch: batches of 1..6 operations mixing up to 2 of 3 groups with ungrouped operations; metric names shared between groups (different label values), label sets of 8 shapes incl. a `hook` label that must be overridden, action/value and shortcut (`add`/`set`) forms, integer and half-fractional values, explicit expire at any position, 14% of the batches carry one invalid operation (10 kinds) at a random position. Generators stay outside the recorded finding classes (same series written by two groups, name used grouped and ungrouped, ungrouped label-name change, one name with two types), which are replayed as separate known cases. Non-trivial: >= 2 batches, at least one grouped and one valid batch; distinct = distinct op-line sequences."
+	r.Rule = "histories of 1..8 steps by 4 hooks through the real operation parser + MetricStorage.SendBatch on a private registry, observed by Gatherer.Gather() after every step. A step is one batch, or (22%) a CONCURRENT step: 2..4 batches of different hooks, each with its own group(s), sent by one goroutine each in a random start order while a gated Registerer (installed as MetricStorage.Registerer and as the vault's registerer) holds every first registration of a metric open until all calls were started; 70% of the concurrent steps let all their hooks report the same never-used grouped gauge and counter names. A concurrent step is judged against EVERY linearisation of its batches through the reference registry (return value of each call + scrape after all returned). Batches of 1..6 operations mixing up to 2 of 4 groups with ungrouped operations; metric names shared between groups; label sets over the names a, b, x, y (two sorting before `hook`, two after; each present with 30%) with ONE pool of 3 values for all names (equal values under different names), 10% explicit empty values, a `hook` label that must be overridden (15%); action/value and shortcut (`add`/`set`) forms, integer and half-fractional values, explicit expire at any position, 14% of the batches carry one invalid operation (10 kinds) at a random position. Generators stay outside the recorded finding classes (same series written by two groups, name used grouped and ungrouped, ungrouped label-name change, one name with two types), which are replayed as separate known cases. Non-trivial: >= 2 batches, at least one grouped and one valid batch; distinct = distinct op-line sequences."
 	// ---- corpus: the repaired defects (must now hold) ----
 	r.One(0, func(c *Case, _ *Rng) {
 		c.Desc = "corpus: grouped {\"add\":1} shortcut counts once (was applied twice)"
@@ -817,6 +817,8 @@ func runC16(r *Run) {
 			{Name: "ug1", Action: "set", Value: ip(4)},
 			{Name: "uc1_total", Action: "add", Value: ip(1), Labels: map[string]string{"x": "1"}},
 			{Name: "ug1", Action: "bogus", Value: ip(2)},
+			{Name: "gg1", Group: "ga", Action: "set", Value: ip(9), Labels: map[string]string{"a": "1"}},
+			{Name: "gg1", Group: "gb", Action: "set", Value: ip(1), Labels: map[string]string{"b": "1", "x": ""}},
 		}
 		A := len(alphabet)
 		nb := A + A*A // batches of length 1..2
@@ -846,7 +848,44 @@ func runC16(r *Run) {
 			w.send(second, batch(k%nb))
 			c.Nontrivial = true
 		})
+		// exhaustive concurrent scope: every pair (batch of hook h1 over the ga/ungrouped/invalid part of the
+		// alphabet, batch of hook h2 over the gb/ungrouped/invalid part), batches of 1..2 operations, sent at
+		// the same time on an empty store, both start orders
+		var alA, alB []c16Op
+		for _, o := range alphabet {
+			if o.Group != "gb" {
+				alA = append(alA, o)
+			}
+			if o.Group != "ga" {
+				alB = append(alB, o)
+			}
+		}
+		batchesOf := func(al []c16Op) [][]c16Op {
+			var out [][]c16Op
+			for _, o := range al {
+				out = append(out, []c16Op{o})
+			}
+			for _, o := range al {
+				for _, q := range al {
+					out = append(out, []c16Op{o, q})
+				}
+			}
+			return out
+		}
+		bA, bB := batchesOf(alA), batchesOf(alB)
+		ptotal := len(bA) * len(bB) * 2
+		r.Cases(3000000, ptotal, 0, func(c *Case, _ *Rng) {
+			k := c.Idx - 3000000
+			start := []int{0, 1}
+			if k%2 == 1 {
+				start = []int{1, 0}
+			}
+			k /= 2
+			w := newC16World(c)
+			w.sendPar([]c16Batch{{"h1", bA[k/len(bB)]}, {"h2", bB[k%len(bB)]}}, start)
+			c.Nontrivial = true
+		})
 		r.Exhaust = true
-		r.Extra["exhaustive_scope"] = fmt.Sprintf("all %d histories of 1..2 batches (2nd batch by the same or another hook) of 1..2 operations over a %d-operation alphabet (2 groups sharing 2 names, set/add/shortcut/expire, 2 ungrouped, 1 invalid)", total, A)
+		r.Extra["exhaustive_scope"] = fmt.Sprintf("all %d histories of 1..2 batches (2nd batch by the same or another hook) of 1..2 operations over a %d-operation alphabet (2 groups sharing 2 names, label sets that differ in which label is empty, set/add/shortcut/expire, 2 ungrouped, 1 invalid); all %d concurrent pairs (h1 over the ga part, h2 over the gb part of the alphabet, 1..2 operations each, both start orders) on an empty store", total, A, ptotal)
 	}
 }
